@@ -30,6 +30,13 @@ def main(argv):
         sut.load()
         print(engine.prop_module(argv[1]).digest_slice(int(argv[2])))
         return 0
+    if cmd == "runtask":
+        import json
+        sut.load()
+        part = engine.prop_module(argv[1]).run_task(json.loads(argv[2]))
+        for fl in part["fails"]:
+            print("TASKFAIL " + json.dumps({"oracle": fl["oracle"], "sig": fl["sig"], "detail": fl.get("detail")}))
+        return 0
     if cmd == "selftest":
         from cardsim import selftest
         return selftest.main(argv[1:])
